@@ -257,10 +257,17 @@ func (x *g) genMethod(sv *spec.Service, j int, used map[string]bool) {
 		x.s.AddFeature("result-primitive", "result-text-candidate")
 	case rk == 0:
 		x.s.AddFeature("result-none")
-	case rk == 1 && x.o.Profile != "grpc" && x.objectTypes() != nil && x.chance(1, 3):
-		// the whole result is a collection of collections of a named object type
+	case (rk == 1 && x.chance(1, 3) || rk == 2 && (x.o.Profile == "http-loc" || x.o.Profile == "mixed") && x.chance(1, 2)) && x.o.Profile != "grpc" && x.objectTypes() != nil:
+		// the whole result is a collection of collections of a named object type (one that requires attributes when
+		// there is one: a body that skipped the conversion to its HTTP type is then refused by the client)
 		ts := x.objectTypes()
-		ul := &spec.Attr{Type: &spec.Type{Kind: spec.Ref, Ref: ts[x.r.Intn(len(ts))].Name}}
+		pick := ts[x.r.Intn(len(ts))]
+		for _, c := range ts {
+			if c.Def != nil && len(c.Def.Required) > 0 && x.chance(1, 2) {
+				pick = c
+			}
+		}
+		ul := &spec.Attr{Type: &spec.Type{Kind: spec.Ref, Ref: pick.Name}}
 		inner := &spec.Attr{Type: &spec.Type{Kind: spec.Array, Elem: ul}}
 		if x.chance(1, 2) {
 			inner = &spec.Attr{Type: &spec.Type{Kind: spec.Map, Key: &spec.Attr{Type: &spec.Type{Kind: spec.String}}, Elem: ul}}
@@ -945,7 +952,7 @@ func (x *g) genResponses(sv *spec.Service, m *spec.Method) {
 				if a.HasDef {
 					x.s.AddFeature("response-header-default")
 				}
-			case prim && (c == 2 && x.chance(1, 2) || len(r.Cookies) > 0 && x.chance(1, 2) || x.o.Profile == "http-loc" && c == 3):
+			case prim && (c == 2 && x.chance(1, 2) || len(r.Cookies) > 0 && x.chance(3, 4) || x.o.Profile == "http-loc" && c == 3):
 				cw := ""
 				if x.chance(1, 2) {
 					cw = x.r.Pick("SID", "sess-id", "c_1", "Lab.Cookie")
